@@ -70,7 +70,7 @@ class Check:
         raise NotImplementedError
 
     def ctx_for(self, cfg, seed):
-        return sx.Ctx(self.pid, D=cfg.get("D", 1), seed=seed, timeout_ms=cfg.get("timeout_ms", 120000))
+        return sx.Ctx(self.pid, D=cfg.get("D", 1), seed=seed, timeout_ms=cfg.get("timeout_ms", 30000))
 
     def replay(self, cex):
         """Re-run a counterexample on the real code with plain numpy.
@@ -303,7 +303,7 @@ def main(check: Check, argv=None):
         violations.append((fl["label"], msg, path))
 
     vacuous = [
-        lab for lab in getattr(check, "required_labels", []) if total.reached.get(lab, 0) == 0
+        lab for lab in getattr(check, "required_labels", []) if total.reached.get(lab, 0) == 0 and not args.only
     ]
 
     wall = time.time() - t0
